@@ -102,6 +102,8 @@ impl Engine for Bls12 {
 
         let mut f = Fq12::one();
 
+        #[cfg(pairing_plus_verif)]
+        ::verif_hooks::point(21);
         let mut found_one = false;
         for i in BitIterator::new(&[BLS_X >> 1]) {
             if !found_one {
@@ -126,6 +128,8 @@ impl Engine for Bls12 {
             ell(&mut f, coeffs.next().unwrap(), &p.0);
         }
 
+        #[cfg(pairing_plus_verif)]
+        ::verif_hooks::point(22);
         if BLS_X_IS_NEGATIVE {
             f.conjugate();
         }
@@ -144,6 +148,8 @@ impl Engine for Bls12 {
                 f2 = r;
                 r.frobenius_map(2);
                 r.mul_assign(&f2);
+                #[cfg(pairing_plus_verif)]
+                ::verif_hooks::point(23);
 
                 fn exp_by_x(f: &mut Fq12, x: u64) {
                     *f = f.pow(&[x]);
@@ -381,6 +387,8 @@ impl G2Prepared {
             }
         }
 
+        #[cfg(pairing_plus_verif)]
+        ::verif_hooks::point(24);
         coeffs.push(doubling_step(&mut r));
 
         G2Prepared {
